@@ -177,7 +177,7 @@ theorem com_symmetric (wgt : ℤ → ℤ → ℚ) (r : ℕ)
     rw [this]; linarith
 
 /-- hence the refined position equals the integer centre exactly -/
-theorem refined_exact (c : ℤ) (r : ℕ) : Gen.refined_coord c (r : ℚ) (r : ℤ) = (c : ℚ) := by
+theorem refined_exact (c : ℤ) (r : ℕ) : Model.refined_coord c (r : ℚ) (r : ℤ) = (c : ℚ) := by
   rw [C03.refined_formula]; push_cast; ring
 
 /-! ### composed: a symmetric, uniquely peaked window map is evaluated exactly -/
@@ -195,22 +195,22 @@ theorem evaluate_symmetric_exact (corr : ℤ → ℤ → ℚ) (n m : ℕ) (hn : 
     (evaluate corr n m).cy = qy ∧ (evaluate corr n m).cx = qx ∧
     (evaluate corr n m).ry = (qy : ℚ) ∧ (evaluate corr n m).rx = (qx : ℚ) := by
   obtain ⟨ecy, ecx⟩ := huniq _ _ _ _ (evaluate_isMaxAt corr n m hn hm) hmaxq
-  have hry : (evaluate corr n m).ry = (refineCenter corr n m (evaluate corr n m).cy (evaluate corr n m).cx Gen.refine_radius).1 := rfl
-  have hrx : (evaluate corr n m).rx = (refineCenter corr n m (evaluate corr n m).cy (evaluate corr n m).cx Gen.refine_radius).2 := rfl
+  have hry : (evaluate corr n m).ry = (refineCenter corr n m (evaluate corr n m).cy (evaluate corr n m).cx Model.refine_radius).1 := rfl
+  have hrx : (evaluate corr n m).rx = (refineCenter corr n m (evaluate corr n m).cy (evaluate corr n m).cx Model.refine_radius).2 := rfl
   rw [hry, hrx, ecy, ecx]
   refine ⟨rfl, rfl, ?_⟩
   -- the refinement around q with the full radius 2
   unfold refineCenter
   simp only []
-  have hr : Gen.refine_r Gen.refine_radius qy qx n m = 2 := by
-    unfold Gen.refine_r Gen.refine_radius; omega
+  have hr : Model.refine_r Model.refine_radius qy qx n m = 2 := by
+    unfold Model.refine_r Model.refine_radius; omega
   rw [hr]
-  have hg : ¬ (Gen.refine_guard 2 = true) := by unfold Gen.refine_guard; decide
+  have hg : ¬ (Model.refine_guard 2 = true) := by unfold Model.refine_guard; decide
   rw [if_neg hg]
-  have hlo_y : Gen.cut_lo qy 2 = qy - 2 := rfl
-  have hlo_x : Gen.cut_lo qx 2 = qx - 2 := rfl
-  have hny : Gen.cut_hi qy 2 - Gen.cut_lo qy 2 = ((2 * 2 + 1 : ℕ) : ℤ) := by unfold Gen.cut_hi Gen.cut_lo; push_cast; ring
-  have hnx : Gen.cut_hi qx 2 - Gen.cut_lo qx 2 = ((2 * 2 + 1 : ℕ) : ℤ) := by unfold Gen.cut_hi Gen.cut_lo; push_cast; ring
+  have hlo_y : Model.cut_lo qy 2 = qy - 2 := rfl
+  have hlo_x : Model.cut_lo qx 2 = qx - 2 := rfl
+  have hny : Model.cut_hi qy 2 - Model.cut_lo qy 2 = ((2 * 2 + 1 : ℕ) : ℤ) := by unfold Model.cut_hi Model.cut_lo; push_cast; ring
+  have hnx : Model.cut_hi qx 2 - Model.cut_lo qx 2 = ((2 * 2 + 1 : ℕ) : ℤ) := by unfold Model.cut_hi Model.cut_lo; push_cast; ring
   rw [hny, hnx, hlo_y, hlo_x]
   set cut : ℤ → ℤ → ℚ := fun y x => corr (qy - 2 + y) (qx - 2 + x) with hcut
   set mn := minList (flat cut ((2 * 2 + 1 : ℕ) : ℤ) ((2 * 2 + 1 : ℕ) : ℤ)) with hmn
